@@ -47,6 +47,29 @@ CHECKS = {
             "(every variable written with a distinct marker, then read back) are compiled by the real compiler and executed.",
             "Trusted: Lean kernel, object identity model of ScratchSlot (re-checked each run), AVM spec for the marker programs.",
             "DESIGN.md Part II C10"),
+    "C12": ("proof",
+            "Lean 4 proof: constants_sound / index_in_block / nonconstant_ops_preserved on a model of createConstantBlocks (all op lists), run-equality theorem for pairs accepted by a decidable checker; exact-text correspondence with the real pass; site-by-site decoding and differential execution of both real TEAL texts",
+            "Every rewritten constant-load site denotes the original value and every block index points at the entry holding it, for all op "
+            "lists; the model equals the real createConstantBlocks textually on generated lists and whole programs; pairs of real TEAL texts "
+            "(assembleConstants off/on) are accepted by `checkAssembled`, whose theorem gives equal runs on every context.",
+            "Trusted: Lean kernel, transcription of constants.py/util.py and the CPython codecs (tied by correspondence), AVM grammar and "
+            "semantics; SHA-512/256 uninterpreted. One known finding (index > 255 beyond 256 distinct repeated constants).",
+            "DESIGN.md Part II C12"),
+    "C16": ("proof",
+            "Lean 4 proof: wideRatio_exact / wideRatio_never_wraps for all factor lists and all uint64 values against the shared opcode semantics; op-for-op correspondence with the real WideRatio emission; execution of the real TEAL on boundary factors against big-integer arithmetic",
+            "The emitted op sequence yields exactly floor(prod n / prod d) when every running product fits 128 bits, the divisor is non-zero and "
+            "the quotient fits 64 bits, and fails otherwise, for every number of factors and every value; the model's op list equals the "
+            "real compiler's for all shapes up to 8x8 and versions 5..10.",
+            "Trusted: Lean kernel, execPrim for mulw,*,+,divmodw,uncover,dig,cover,swap,pop,!,assert.",
+            "DESIGN.md Part II C16"),
+    "C20": ("exploration",
+            "exhaustive enumeration of small control skeletons x placements x versions x options plus random well-typed programs, long and deep programs against the real compiler; outcome-class correspondence with the total Lean code-generation model",
+            "The real compiler must answer TEAL or a PyTeal error for every explored program and accept every program that fits the target; "
+            "all control skeletons up to the tier's size are enumerated (loop first, Break/Continue-only bodies, empty sequences, both arms "
+            "empty, nested loops) in main and as the first statement of a subroutine.",
+            "Trusted: prediction of acceptability (harness operator table). Three crash defects were repaired with fix: commits; one known "
+            "finding (recursion limit on very long / deep programs).",
+            "DESIGN.md Part II C20"),
     "C13": ("proof",
             "Lean 4 proof: round-trip theorems of the literal emitters against an independent TEAL literal grammar (all byte strings / integers), exhaustive single-byte and byte-pair correspondence with the real escapeStr/Bytes/Int/Addr/MethodSignature",
             "For every byte string and integer the emitted token text decodes, under the independent grammar, to exactly the value written; the "
@@ -89,7 +112,7 @@ def main():
         })
     m = {
         "version": 1,
-        "setup_cmd": "cd lean && lake build PyTealV driver",
+        "setup_cmd": "cd lean && lake build PyTealV driver $(ls PyTealV/Proofs/*.lean | sed 's#/#.#g; s#\\.lean$##')",
         "hooks": {"guard": "ALGORAND_PYTEAL_VERIF",
                   "enable": "no source hooks exist; checks import /repo's working tree as is (./check sets the variable for future use)",
                   "baseline_off_cmd": base["cmd"].replace("--junitxml=<file>", "").strip(),
